@@ -267,3 +267,14 @@ def check_refusal_atomic(ck, it, func, s0=0, r0=0, fresh_from=None, rule="G-REFU
         else:
             ck.proved(rule, func, cons, f"{len(stores)} stores examined, none is left in place on the path of the raise")
     return n
+
+
+def check_eq_pair(ck, it, env, a, b, syms_a, syms_b, func, rule="Q-EQ"):
+    """`a == b` of two objects built from disjoint symbols: the comparison term mentions every field symbol of both"""
+    from .gti import Unsupported
+    try:
+        eq = it.compare("==", a, b, env, None)
+    except Unsupported as e:
+        ck.unknown(rule, func, "equality analysed", str(e))
+        return
+    check_eq_sensitive(ck, eq, syms_a, syms_b, func, rule=rule)
